@@ -61,9 +61,56 @@ func key(i int) *btcec.PrivateKey {
 	return k
 }
 
+// c17StackCase: real Client and Server over the fake relay; first connection (pairing), close,
+// second connection. On both connections the streams the two endpoints actually use must cross-match
+// and be the ones their ConnData derives at that moment; with `eager` the server asks for its next
+// connection as soon as Accept has returned (as gRPC's Serve loop does), i.e. before the pairing
+// handshake has stored the remote key.
+func c17StackCase(r *Recorder, eager bool, seed int) {
+	name := fmt.Sprintf("stack-streams:eager-accept=%v:%d", eager, seed)
+	relay := NewFakeRelay()
+	st, err := NewStack(relay, seed)
+	if err != nil {
+		r.Violate("C17/setup", err.Error(), name)
+		return
+	}
+	defer st.Shutdown()
+	st.EagerAccept = eager
+	for conn := 1; conn <= 3; conn++ {
+		want, _ := st.CliData.SID()
+		s, c, _ := st.ConnectRetry(4)
+		if s.Err != nil || c.Err != nil {
+			r.Violate("C17/streams-do-not-meet", fmt.Sprintf("connection %d of a session on a fault-free relay (eager accept: %v) was not established: server %v, client %v",
+				conn, eager, s.Err, c.Err), name)
+			return
+		}
+		sc, ok1 := s.Mailbox.(*mailbox.ServerConn)
+		cc, ok2 := c.Mailbox.(*mailbox.ClientConn)
+		if ok1 && ok2 {
+			sr, ss := sc.VAddrs()
+			cr, cs := cc.VAddrs()
+			a, b := mailbox.GetSID(want, true), mailbox.GetSID(want, false)
+			switch {
+			case sr != cs || ss != cr:
+				r.Violate("C17/streams-do-not-meet", fmt.Sprintf("connection %d: the client's send stream is not the server's receive stream (or vice versa)", conn), name)
+			case sr == ss:
+				r.Violate("C17/directions-share-a-stream", fmt.Sprintf("connection %d: one stream for both directions", conn), name)
+			case !(sr == a && ss == b) && !(sr == b && ss == a):
+				r.Violate("C17/streams-not-derived-from-current-secret", fmt.Sprintf("connection %d runs on streams that are not derived from the identifier the client's ConnData yields", conn), name)
+			}
+		}
+		c.Mailbox.Close()
+		s.Mailbox.Close()
+	}
+	r.Case(name, true, "stack-streams")
+}
+
 func TestC17(t *testing.T) {
 	r := NewRecorder(t, "C17")
 	defer r.Close(t)
+	for i, eager := range []bool{false, true} {
+		c17StackCase(r, eager, 1700+i)
+	}
 	rng := newRand(17)
 	// word list: injective, and the reverse map inverts it (all 2048)
 	seen := map[string]int{}
